@@ -164,7 +164,7 @@ class quadtree(object):
 mulgrid_format_specification = {
     'header': [['type', '_convention', '_atmosphere_type',
                 'atmosphere_volume', 'atmosphere_connection', 
-                'unit_type', 'gdcx', 'gdcy', 'cntype',
+                '_unit_type', 'gdcx', 'gdcy', 'cntype',
                 'permeability_angle', '_block_order_int'],
                ['5s', '1d', '1d',
                 '10.2e', '10.2e',
@@ -1256,7 +1256,7 @@ class mulgrid(object):
         geo.read_value_line(self.__dict__, 'header')
         self.convention = self._convention
         self.atmosphere_type = self._atmosphere_type
-        self.unit_type = self._unit_type
+        self.unit_type = self._unit_type if self._unit_type.strip() else ''
         if self.cntype is not None and self.cntype != 0:
             print('CNTYPE option = %d not supported.' % (self.cntype))
         block_orders = {0: 'layer_column', 1: 'dmplex'}
